@@ -461,11 +461,30 @@ theorem forEach_rel {α : Type} {R : St W → St W → Prop} (hrefl : ∀ s, R s
       simp only [hx] at h
       exact htrans _ _ _ (hf x (by simp) s s1 hx) (ih (fun y hy => hf y (by simp [hy])) s1 s' h)
 
+/-! ### ownership: the frames in a framer's `.actives` are frames of that framer -/
+
+structure Owned (P : Prog) (s : St W) : Prop where
+  actives : ∀ i f, f ∈ (s.fr i).actives → (P.frame f).framer = i
+  active : ∀ i a, (s.fr i).active = some a → (P.frame a).framer = i
+
+theorem owned_of_step {P : Prog} {i : Frid} {s s' : St W} (h : Step P i s s') (hk : Keep i s s')
+    (ho : Owned P s) : Owned P s' := by
+  constructor
+  · intro j f hf
+    by_cases e : j = i
+    · subst e; rw [hk.2] at hf; exact ho.actives j f hf
+    · rw [h.actives j e] at hf; exact ho.actives j f hf
+  · intro j a ha
+    by_cases e : j = i
+    · subst e; rw [hk.1] at ha; exact ho.active j a ha
+    · rw [h.active j e] at ha; exact ho.active j a ha
+
 /-! ### what is assumed of the entry points of the level below -/
 
 structure OpOK (P : Prog) (op : Frid → St W → Except Err (St W)) : Prop where
-  mod : ∀ y s s', op y s = .ok s' → Mod (Reach P y) s s'
-  inv : ∀ y s s', op y s = .ok s' → s'.bad = false → InvR P y s → InvR P y s'
+  mod : ∀ y s s', Owned P s → op y s = .ok s' → Mod (Reach P y) s s'
+  owned : ∀ y s s', Owned P s → op y s = .ok s' → Owned P s'
+  inv : ∀ y s s', Owned P s → op y s = .ok s' → s'.bad = false → InvR P y s → InvR P y s'
 
 structure LoSpec (P : Prog) (lo : Ops W) : Prop where
   enterAll : OpOK P lo.enterAll
@@ -473,6 +492,27 @@ structure LoSpec (P : Prog) (lo : Ops W) : Prop where
   recur : OpOK P lo.recur
   segue : OpOK P lo.segue
   exit_done : ∀ y s s', lo.exitAll y s = .ok s' → (s'.fr y).done = true
+
+/-- `Sub ∧ Keep ∧ ownership afterwards` -/
+def SKO (P : Prog) (i : Frid) (X : Frid → Prop) (s s' : St W) : Prop :=
+  Sub P i X s s' ∧ Keep i s s' ∧ Owned P s'
+
+/-- … given ownership before (the relation used along loops) -/
+def SK (P : Prog) (i : Frid) (X : Frid → Prop) (s s' : St W) : Prop := Owned P s → SKO P i X s s'
+
+theorem SK.refl {P : Prog} (i : Frid) (X : Frid → Prop) (s : St W) : SK P i X s s :=
+  fun ho => ⟨Sub.refl _ _ _ _, Keep.refl _ _, ho⟩
+
+theorem SK.trans {P : Prog} {i : Frid} {X : Frid → Prop} {a b c : St W} (h1 : SK P i X a b) (h2 : SK P i X b c) :
+    SK P i X a c := fun ho =>
+  have r1 := h1 ho
+  have r2 := h2 r1.2.2
+  ⟨r1.1.trans r2.1, r1.2.1.trans r2.2.1, r2.2.2⟩
+
+theorem SK.mono {P : Prog} {i : Frid} {X Y : Frid → Prop} {s s' : St W} (h : SK P i X s s')
+    (hxy : ∀ x, X x → Y x) : SK P i Y s s' := fun ho =>
+  have r := h ho
+  ⟨r.1.mono hxy, r.2⟩
 
 section level
 variable {P : Prog} {rank : Frid → Nat} (wf : WF P rank)
@@ -484,13 +524,14 @@ theorem reach_sub {i y : Frid} (hy : Child P i y) : ∀ j, Reach P y j → Reach
 
 /-- an entry point of the level below, called on a kid `y` of `i` -/
 theorem lo_sub {op : Frid → St W → Except Err (St W)} (hop : OpOK P op) {i y : Frid} (hy : Child P i y)
-    {s s' : St W} (h : op y s = .ok s') : Sub P i (fun x => x = y) s s' ∧ Keep i s s' := by
-  have hm := hop.mod y s s' h
+    {s s' : St W} (h : op y s = .ok s') : SK P i (fun x => x = y) s s' := by
+  intro ho
+  have hm := hop.mod y s s' ho h
   have hi : ¬ Reach P y i := not_reach_parent wf hy
-  refine ⟨⟨hm.mono (reach_sub hy), ?_, ?_⟩, ?_⟩
+  refine ⟨⟨hm.mono (reach_sub hy), ?_, ?_⟩, ?_, hop.owned y s s' ho h⟩
   · intro hb hbl y' hy' j hj
     by_cases e : y' = y
-    · subst e; exact hop.inv _ s s' h hb (hbl _ hy') j hj
+    · subst e; exact hop.inv _ s s' ho h hb (hbl _ hy') j hj
     · have hnj : ¬ Reach P y j := siblings_disjoint wf hy' hy e hj
       have hji : j ≠ i := by
         intro e'; subst e'; exact not_reach_parent wf hy' hj
@@ -521,8 +562,9 @@ theorem plain_child {f : Fid} {y : Frid} (hy : y ∈ (P.frame f).auxes) : Child 
 
 theorem lo_sub_plain {op : Frid → St W → Except Err (St W)} (hop : OpOK P op) {f : Fid} {y : Frid}
     (hy : y ∈ (P.frame f).auxes) {s s' : St W} (h : op y s = .ok s') :
-    Sub P (P.frame f).framer (fun _ => False) s s' ∧ Keep (P.frame f).framer s s' := by
-  have := lo_sub wf hop (plain_child hy) h
+    SK P (P.frame f).framer (fun _ => False) s s' := by
+  intro ho
+  have := lo_sub wf hop (plain_child hy) h ho
   refine ⟨⟨this.1.mod, this.1.below, ?_⟩, this.2⟩
   intro x hx _
   exact this.1.kids x hx (plain_ne_cond wf hy hx)
@@ -551,17 +593,8 @@ theorem release_step {i y : Frid} (hy : Child P i y) (s : St W) :
   · exact ⟨step_main P i y hy _ s, keep_of_step_other wf hy _ s⟩
   · exact ⟨Step.refl _ _ _, Keep.refl _ _⟩
 
-/-- `Sub ∧ Keep` as one relation (for `forEach_rel`) -/
-def SK (P : Prog) (i : Frid) (X : Frid → Prop) (s s' : St W) : Prop := Sub P i X s s' ∧ Keep i s s'
-
-omit wf in
-theorem SK.refl (i : Frid) (X : Frid → Prop) (s : St W) : SK P i X s s := ⟨Sub.refl _ _ _ _, Keep.refl _ _⟩
-omit wf in
-theorem SK.trans {i : Frid} {X : Frid → Prop} {a b c : St W} (h1 : SK P i X a b) (h2 : SK P i X b c) : SK P i X a c :=
-  ⟨h1.1.trans h2.1, h1.2.trans h2.2⟩
-
 theorem SK.of_step {i : Frid} {s s' : St W} (h : Step P i s s' ∧ Keep i s s') (X : Frid → Prop) : SK P i X s s' :=
-  ⟨h.1.sub wf X, h.2⟩
+  fun ho => ⟨h.1.sub wf X, h.2, owned_of_step h.1 h.2 ho⟩
 
 variable {sem : Sem W} {lo : Ops W} (hlo : LoSpec P lo)
 include hlo
@@ -571,7 +604,7 @@ theorem frameEnter_sk {f : Fid} {s s' : St W} (h : frameEnter P sem lo f s = .ok
   unfold frameEnter at h
   have h1 : SK P (P.frame f).framer (fun _ => False) s
       (runActs sem .enter f (P.frame f).enacts (s.emit (.enter f))) :=
-    SK.trans (SK.of_step wf ⟨step_emit P _ _ s, Keep.refl _ _⟩ _)
+    SK.trans (b := s.emit (.enter f)) (SK.of_step wf ⟨step_emit P _ _ s, Keep.refl _ _⟩ _)
       (SK.of_step wf (runActs_step P sem .enter f _ _ (wf.doneEn f) _) _)
   refine SK.trans h1 ?_
   refine forEach_rel (R := SK P (P.frame f).framer (fun _ => False)) (SK.refl _ _) (fun _ _ _ => SK.trans) _ _ ?_ _ _ h
@@ -610,8 +643,8 @@ theorem invR_iff (i : Frid) (s : St W) : InvR P i s ↔ FInv P i s ∧ Below P i
 
 omit wf hlo in
 /-- `FInv i` is kept by a part of an operation that keeps `active`/`actives` and all conditional kids -/
-theorem FInv.of_sk {i : Frid} {s s' : St W} (h : FInv P i s) (hsk : SK P i (fun _ => False) s s') : FInv P i s' :=
-  h.congr hsk.2.1 hsk.2.2 (fun m x hm hx => hsk.1.kids x ⟨m, hm, hx⟩ (fun hf => hf))
+theorem FInv.of_sko {i : Frid} {s s' : St W} (h : FInv P i s) (hsk : SKO P i (fun _ => False) s s') : FInv P i s' :=
+  h.congr hsk.2.1.1 hsk.2.1.2 (fun m x hm hx => hsk.1.kids x ⟨m, hm, hx⟩ (fun hf => hf))
 
 omit hlo in
 theorem head_mem (m : Fid) : m ∈ (P.frame m).head :=
@@ -628,9 +661,30 @@ theorem FInv.no_running_of_inactive {i : Frid} {s : St W} (h : FInv P i s) (hn :
   rw [← h1, h2] at h3
   cases h3
 
+omit wf hlo in
+theorem owned_activate {i : Frid} {a : Fid} {s : St W} (ho : Owned P s)
+    (ha : ∀ f, f ∈ (P.frame a).outline → (P.frame f).framer = i) (haa : (P.frame a).framer = i) :
+    Owned P (activate P i a s) := by
+  constructor
+  · intro j f hf
+    by_cases e : j = i
+    · subst e
+      simp only [activate, fr_emit, fr_modFr, if_true] at hf
+      exact ha f hf
+    · simp only [activate, fr_emit, fr_modFr, e, if_false] at hf
+      exact ho.actives j f hf
+  · intro j b hb
+    by_cases e : j = i
+    · subst e
+      simp only [activate, fr_emit, fr_modFr, if_true, Option.some.injEq] at hb
+      rw [← hb]; exact haa
+    · simp only [activate, fr_emit, fr_modFr, e, if_false] at hb
+      exact ho.active j b hb
+
 /-- `Framer.enterAll` -/
-theorem enterAll_spec {i : Frid} {s s' : St W} (h : enterAll P sem lo i s = .ok s') :
-    Mod (Reach P i) s s' ∧ (s'.bad = false → InvR P i s → InvR P i s') := by
+theorem enterAll_spec {i : Frid} {s s' : St W} (ho : Owned P s) (h : enterAll P sem lo i s = .ok s') :
+    Mod (Reach P i) s s' ∧ Owned P s' ∧ (s'.bad = false → InvR P i s → InvR P i s') ∧
+    (s'.fr i).active = some (P.framer i).first := by
   unfold enterAll at h
   -- name the intermediate states
   obtain ⟨s0, hs0⟩ : ∃ x, x = markReenter (s.fr i).active.isSome s := ⟨_, rfl⟩
@@ -645,14 +699,17 @@ theorem enterAll_spec {i : Frid} {s s' : St W} (h : enterAll P sem lo i s = .ok 
   have hact : (s2.fr i).active = some (P.framer i).first ∧
       (s2.fr i).actives = (P.frame (P.framer i).first).outline := by
     rw [hs2]; simp [activate]
-  have hown : ∀ f, f ∈ (s2.fr i).actives → (P.frame f).framer = i := by
+  have hfirst : ∀ f, f ∈ (P.frame (P.framer i).first).outline → (P.frame f).framer = i := by
     intro f hf
-    rw [hact.2] at hf
     rw [wf.outlineOwn _ f hf, wf.firstOwn i]
-  have hsk := enter_sk wf hlo hown h
+  have hown : ∀ f, f ∈ (s2.fr i).actives → (P.frame f).framer = i := by
+    intro f hf; rw [hact.2] at hf; exact hfirst f hf
+  have ho1 : Owned P s1 := owned_of_step (st0.trans st1) (by rw [hs1, hs0]; simp [Keep]) ho
+  have ho2 : Owned P s2 := hs2 ▸ owned_activate ho1 hfirst (wf.firstOwn i)
+  have hsk := enter_sk wf hlo hown h ho2
   have st02 : Step P i s s2 := (st0.trans st1).trans st2
   have hsub : Sub P i (fun _ => False) s s' := (st02.sub wf _).trans hsk.1
-  refine ⟨hsub.mod, ?_⟩
+  refine ⟨hsub.mod, hsk.2.2, ?_, hsk.2.1.1.trans hact.1⟩
   intro hb hinv
   rw [invR_iff] at hinv ⊢
   refine ⟨?_, hsub.below hb hinv.2⟩
@@ -672,8 +729,8 @@ theorem enterAll_spec {i : Frid} {s s' : St W} (h : enterAll P sem lo i s = .ok 
   have hnr' : ∀ m x, (P.frame m).framer = i → ¬ Running P s' m x := by
     intro m x hm ⟨h1, h2⟩
     exact hnr m x hm ⟨h1, by rw [← hkid m x hm h1]; exact h2⟩
-  have ha' : (s'.fr i).active = some (P.framer i).first := hsk.2.1.trans hact.1
-  have hl' : (s'.fr i).actives = (P.frame (P.framer i).first).outline := hsk.2.2.trans hact.2
+  have ha' : (s'.fr i).active = some (P.framer i).first := hsk.2.1.1.trans hact.1
+  have hl' : (s'.fr i).actives = (P.frame (P.framer i).first).outline := hsk.2.1.2.trans hact.2
   constructor
   · intro hn; rw [ha'] at hn; cases hn
   · intro a hs; rw [ha'] at hs; cases hs; exact wf.firstOwn i
@@ -687,8 +744,8 @@ omit wf hlo in
 theorem susp_condkid {f : Fid} {x : Frid} (hx : IsSusp P f x) : CondKid P (P.frame f).framer x := ⟨f, rfl, hx⟩
 
 /-- `Suspender.deactivate(aux)` on a conditional kid -/
-theorem deactivateAux_sk {i x : Frid} (hx : CondKid P i x) {s s' : St W}
-    (h : deactivateAux P lo x s = .ok s') : SK P i (fun z => z = x) s s' ∧ (s'.fr x).done = true := by
+theorem deactivateAux_sk {i x : Frid} (hx : CondKid P i x) {s s' : St W} (ho : Owned P s)
+    (h : deactivateAux P lo x s = .ok s') : SKO P i (fun z => z = x) s s' ∧ (s'.fr x).done = true := by
   unfold deactivateAux at h
   cases h1 : lo.exitAll x s with
   | error e => simp [h1] at h
@@ -696,45 +753,45 @@ theorem deactivateAux_sk {i x : Frid} (hx : CondKid P i x) {s s' : St W}
     simp only [h1, Except.ok.injEq] at h
     subst h
     have hr := release_step wf hx.child s1
-    refine ⟨SK.trans (lo_sub wf hlo.exitAll hx.child h1) (SK.of_step wf hr _), ?_⟩
-    have : (release P x s1).fr x |>.done = (s1.fr x).done := by
+    refine ⟨SK.trans (lo_sub wf hlo.exitAll hx.child h1) (SK.of_step wf hr _) ho, ?_⟩
+    have : ((release P x s1).fr x).done = (s1.fr x).done := by
       unfold release; split <;> simp
     rw [this]; exact hlo.exit_done x s s1 h1
 
-theorem deactivize_sk {i x : Frid} (hx : CondKid P i x) {s s' : St W}
-    (h : deactivize P lo x s = .ok s') : SK P i (fun z => z = x) s s' ∧ (s'.fr x).done = true := by
+theorem deactivize_sk {i x : Frid} (hx : CondKid P i x) {s s' : St W} (ho : Owned P s)
+    (h : deactivize P lo x s = .ok s') : SKO P i (fun z => z = x) s s' ∧ (s'.fr x).done = true := by
   unfold deactivize at h
   split at h
   · rename_i hd
     simp only [Except.ok.injEq] at h; subst h
-    exact ⟨SK.refl _ _ _, hd⟩
-  · exact deactivateAux_sk wf hlo hx h
+    exact ⟨SK.refl _ _ _ ho, hd⟩
+  · exact deactivateAux_sk wf hlo hx ho h
 
 /-- the `deactivize` side acts of one frame -/
 theorem deactivize_all {i : Frid} (l : List Frid) (hl : ∀ x, x ∈ l → CondKid P i x) (X : Frid → Prop)
-    (hX : ∀ x, x ∈ l → X x) : ∀ s s', forEach (deactivize P lo) l s = .ok s' →
-      SK P i X s s' ∧ (∀ x, x ∈ l → (s'.fr x).done = true) ∧
+    (hX : ∀ x, x ∈ l → X x) : ∀ s s', Owned P s → forEach (deactivize P lo) l s = .ok s' →
+      SKO P i X s s' ∧ (∀ x, x ∈ l → (s'.fr x).done = true) ∧
       (∀ z, CondKid P i z → (s.fr z).done = true → (s'.fr z).done = true) := by
   induction l with
   | nil =>
-    intro s s' h; simp only [forEach, Except.ok.injEq] at h; subst h
-    exact ⟨SK.refl _ _ _, fun _ hx => by cases hx, fun _ _ h => h⟩
+    intro s s' ho h; simp only [forEach, Except.ok.injEq] at h; subst h
+    exact ⟨SK.refl _ _ _ ho, fun _ hx => by simp at hx, fun _ _ h => h⟩
   | cons x xs ih =>
-    intro s s' h
+    intro s s' ho h
     simp only [forEach] at h
     cases h1 : deactivize P lo x s with
     | error e => simp [h1] at h
     | ok s1 =>
       simp only [h1] at h
       have hx := hl x (by simp)
-      have d1 := deactivize_sk wf hlo hx h1
-      have d2 := ih (fun y hy => hl y (by simp [hy])) (fun y hy => hX y (by simp [hy])) s1 s' h
+      have d1 := deactivize_sk wf hlo hx ho h1
+      have d2 := ih (fun y hy => hl y (by simp [hy])) (fun y hy => hX y (by simp [hy])) s1 s' d1.1.2.2 h
       have mono1 : ∀ z, CondKid P i z → (s.fr z).done = true → (s1.fr z).done = true := by
         intro z hz hd
         by_cases e : z = x
         · subst e; exact d1.2
         · rw [d1.1.1.kids z hz e]; exact hd
-      refine ⟨SK.trans ⟨d1.1.1.mono (fun z hz => hz ▸ hX x (by simp)), d1.1.2⟩ d2.1, ?_, ?_⟩
+      refine ⟨⟨(d1.1.1.mono (fun z hz => hz ▸ hX x (by simp))).trans d2.1.1, d1.1.2.1.trans d2.1.2.1, d2.1.2.2⟩, ?_, ?_⟩
       · intro y hy
         rcases List.mem_cons.1 hy with e | hy'
         · subst e; exact d2.2.2 y hx d1.2
@@ -742,21 +799,20 @@ theorem deactivize_all {i : Frid} (l : List Frid) (hl : ∀ x, x ∈ l → CondK
       · intro z hz hd; exact d2.2.2 z hz (mono1 z hz hd)
 
 /-- `Frame.exit()` of a frame of framer `i` -/
-theorem frameExit_sk {f : Fid} {s s' : St W} (h : frameExit P sem lo f s = .ok s') :
-    SK P (P.frame f).framer (fun x => IsSusp P f x) s s' ∧ (∀ x, IsSusp P f x → (s'.fr x).done = true) ∧
+theorem frameExit_sk {f : Fid} {s s' : St W} (ho : Owned P s) (h : frameExit P sem lo f s = .ok s') :
+    SKO P (P.frame f).framer (fun x => IsSusp P f x) s s' ∧ (∀ x, IsSusp P f x → (s'.fr x).done = true) ∧
     (∀ z, CondKid P (P.frame f).framer z → (s.fr z).done = true → (s'.fr z).done = true) := by
   unfold frameExit at h
-  cases h1 : forEach (fun aux s => match lo.exitAll aux s with
-                              | .error e => .error e
-                              | .ok s' => .ok (release P aux s')) (P.frame f).auxes (s.emit (.exit f)) with
+  cases h1 : forEach (deactivateAux P lo) (P.frame f).auxes (s.emit (.exit f)) with
   | error e => simp [h1] at h
   | ok s1 =>
     simp only [h1] at h
     have a1 : SK P (P.frame f).framer (fun _ => False) s s1 := by
-      refine SK.trans (SK.of_step wf ⟨step_emit P _ _ s, Keep.refl _ _⟩ _) ?_
+      refine SK.trans (b := s.emit (.exit f)) (SK.of_step wf ⟨step_emit P _ _ s, Keep.refl _ _⟩ _) ?_
       refine forEach_rel (R := SK P (P.frame f).framer (fun _ => False)) (SK.refl _ _)
         (fun _ _ _ => SK.trans) _ _ ?_ _ _ h1
       intro y hy t t' ht
+      unfold deactivateAux at ht
       cases h2 : lo.exitAll y t with
       | error e => simp [h2] at ht
       | ok t1 =>
@@ -765,38 +821,38 @@ theorem frameExit_sk {f : Fid} {s s' : St W} (h : frameExit P sem lo f s = .ok s
         exact SK.trans (lo_sub_plain wf hlo.exitAll hy h2) (SK.of_step wf (release_step wf (plain_child hy) t1) _)
     have a2 : SK P (P.frame f).framer (fun _ => False) s1 (runActs sem .exit f (P.frame f).exacts s1) :=
       SK.of_step wf (runActs_step P sem .exit f _ _ (wf.doneEx f) s1) _
+    have a12 := SK.trans a1 a2 ho
     have a3 := deactivize_all wf hlo (suspAuxes (P.frame f).preacts) (fun x hx => susp_condkid hx)
-      (fun x => IsSusp P f x) (fun x hx => hx) _ _ h
-    have a12 : SK P (P.frame f).framer (fun x => IsSusp P f x) s (runActs sem .exit f (P.frame f).exacts s1) :=
-      ⟨(a1.1.trans a2.1).mono (fun _ hf => hf.elim), a1.2.trans a2.2⟩
-    refine ⟨SK.trans a12 a3.1, a3.2.1, ?_⟩
+      (fun x => IsSusp P f x) (fun x hx => hx) _ _ a12.2.2 h
+    refine ⟨⟨(a12.1.mono (fun _ hf => hf.elim)).trans a3.1.1, a12.2.1.trans a3.1.2.1, a3.1.2.2⟩, a3.2.1, ?_⟩
     intro z hz hd
     apply a3.2.2 z hz
-    rw [(a1.1.trans a2.1).kids z hz (fun hf => hf)]; exact hd
+    rw [a12.1.kids z hz (fun hf => hf)]; exact hd
 
 /-- `Framer.exit(exits)` -/
 theorem exit_sk {i : Frid} (l : List Fid) (hown : ∀ f, f ∈ l → (P.frame f).framer = i) :
-    ∀ s s', forEach (frameExit P sem lo) l s = .ok s' →
-      SK P i (fun x => ∃ f, f ∈ l ∧ IsSusp P f x) s s' ∧
+    ∀ s s', Owned P s → forEach (frameExit P sem lo) l s = .ok s' →
+      SKO P i (fun x => ∃ f, f ∈ l ∧ IsSusp P f x) s s' ∧
       (∀ f x, f ∈ l → IsSusp P f x → (s'.fr x).done = true) ∧
       (∀ z, CondKid P i z → (s.fr z).done = true → (s'.fr z).done = true) := by
   induction l with
   | nil =>
-    intro s s' h; simp only [forEach, Except.ok.injEq] at h; subst h
-    exact ⟨SK.refl _ _ _, fun _ _ hf => by cases hf, fun _ _ h => h⟩
+    intro s s' ho h; simp only [forEach, Except.ok.injEq] at h; subst h
+    exact ⟨SK.refl _ _ _ ho, fun _ _ hf => by simp at hf, fun _ _ h => h⟩
   | cons g gs ih =>
-    intro s s' h
+    intro s s' ho h
     simp only [forEach] at h
     cases h1 : frameExit P sem lo g s with
     | error e => simp [h1] at h
     | ok s1 =>
       simp only [h1] at h
       have hg := hown g (by simp)
-      have d1 := frameExit_sk wf hlo h1
+      have d1 := frameExit_sk wf hlo ho h1
       rw [hg] at d1
-      have d2 := ih (fun f hf => hown f (by simp [hf])) s1 s' h
-      refine ⟨SK.trans ⟨d1.1.1.mono (fun x hx => ⟨g, by simp, hx⟩), d1.1.2⟩
-          ⟨d2.1.1.mono (fun x ⟨f, hf, hx⟩ => ⟨f, by simp [hf], hx⟩), d2.1.2⟩, ?_, ?_⟩
+      have d2 := ih (fun f hf => hown f (by simp [hf])) s1 s' d1.1.2.2 h
+      refine ⟨⟨(d1.1.1.mono (fun x hx => ⟨g, by simp, hx⟩)).trans
+                (d2.1.1.mono (fun x ⟨f, hf, hx⟩ => ⟨f, by simp [hf], hx⟩)),
+              d1.1.2.1.trans d2.1.2.1, d2.1.2.2⟩, ?_, ?_⟩
       · intro f x hf hx
         rcases List.mem_cons.1 hf with e | hf'
         · subst e
@@ -805,14 +861,718 @@ theorem exit_sk {i : Frid} (l : List Fid) (hown : ∀ f, f ∈ l → (P.frame f)
       · intro z hz hd; exact d2.2.2 z hz (d1.2.2 z hz hd)
 
 /-- `Framer.exitAll(abort)` -/
-theorem exitAll_spec {i : Frid} {abort : Bool} {s s' : St W} (hinv0 : FInv P i s ∨ True)
+theorem exitAll_spec {i : Frid} {abort : Bool} {s s' : St W} (ho : Owned P s)
     (h : exitAll P sem lo abort i s = .ok s') :
-    Mod (Reach P i) s s' ∧ (s'.bad = false → InvR P i s → InvR P i s') ∧
-    ((s'.fr i).active = none ∧ (s'.fr i).actives = []) ∧ (abort = false → (s'.fr i).done = true) ∧
-    (InvR P i s → ∀ j, j ≠ i → (s'.fr j).status = (s.fr j).status) ∧
-    (s'.fr i).status = (s.fr i).status := by
-  sorry
+    Mod (Reach P i) s s' ∧ Owned P s' ∧ (s'.bad = false → InvR P i s → InvR P i s') ∧
+    (s'.fr i).active = none ∧ (s'.fr i).actives = [] ∧ (abort = false → (s'.fr i).done = true) := by
+  unfold exitAll exit at h
+  cases h1 : forEach (frameExit P sem lo) (s.fr i).actives.reverse s with
+  | error e => simp [h1] at h
+  | ok s1 =>
+    simp only [h1, Except.ok.injEq] at h
+    have hown : ∀ f, f ∈ (s.fr i).actives.reverse → (P.frame f).framer = i :=
+      fun f hf => ho.actives i f (List.mem_reverse.1 hf)
+    have d := exit_sk wf hlo _ hown s s1 ho h1
+    obtain ⟨s2, hs2⟩ : ∃ x, x = deactivate i s1 := ⟨_, rfl⟩
+    have st2 : Step P i s1 s2 := by
+      rw [hs2]; unfold deactivate
+      exact (step_modFr P i _ s1).trans (step_emit P i _ _)
+    have hs' : s' = if abort then s2 else s2.modFr i (fun x => { x with done := true }) := by
+      rw [hs2]; exact h.symm
+    have st3 : Step P i s2 s' := by
+      rw [hs']; split
+      · exact Step.refl _ _ _
+      · exact step_modFr P i _ s2
+    have st : Step P i s1 s' := st2.trans st3
+    have hact2 : (s2.fr i).active = none ∧ (s2.fr i).actives = [] := by
+      rw [hs2]; simp [deactivate]
+    have hact : (s'.fr i).active = none ∧ (s'.fr i).actives = [] := by
+      rw [hs']; split
+      · exact hact2
+      · simpa using hact2
+    have hsub : Sub P i (fun x => ∃ f, f ∈ (s.fr i).actives.reverse ∧ IsSusp P f x) s s' :=
+      d.1.1.trans (st.sub wf _)
+    have hown' : Owned P s' := by
+      constructor
+      · intro j f hf
+        by_cases e : j = i
+        · subst e; rw [hact.2] at hf; cases hf
+        · rw [st.actives j e] at hf; exact d.1.2.2.actives j f hf
+      · intro j a ha
+        by_cases e : j = i
+        · subst e; rw [hact.1] at ha; cases ha
+        · rw [st.active j e] at ha; exact d.1.2.2.active j a ha
+    refine ⟨hsub.mod, hown', ?_, hact.1, hact.2, ?_⟩
+    · intro hb hinv
+      rw [invR_iff] at hinv ⊢
+      refine ⟨?_, hsub.below hb hinv.2⟩
+      have hnr : ∀ m x, (P.frame m).framer = i → ¬ Running P s' m x := by
+        intro m x hm ⟨hx, hd⟩
+        have hck : CondKid P i x := ⟨m, hm, hx⟩
+        have hxi : x ≠ i := child_ne wf hck.child
+        rw [st.done x hxi] at hd
+        have hrun : Running P s m x := by
+          refine ⟨hx, ?_⟩
+          cases hds : (s.fr x).done with
+          | false => rfl
+          | true => rw [d.2.2 x hck hds] at hd; cases hd
+        have hcut := hinv.1.cut m x hm hrun
+        have hmem : m ∈ (s.fr i).actives.reverse := by
+          rw [List.mem_reverse, hcut]; exact head_mem wf m
+        rw [d.2.1 m x hmem hx] at hd
+        cases hd
+      constructor
+      · intro _; exact hact.2
+      · intro a hs; rw [hact.1] at hs; cases hs
+      · intro a hs; rw [hact.1] at hs; cases hs
+      · intro m x hm hr; exact absurd hr (hnr m x hm)
+      · intro m x m' x' hm _ hr _; exact absurd hr (hnr m x hm)
+    · intro hab
+      rw [hs', hab]; simp
+
+/-! #### recur -/
+
+theorem frameRecur_sk {f : Fid} {s s' : St W} (h : frameRecur P sem lo f s = .ok s') :
+    SK P (P.frame f).framer (fun _ => False) s s' := by
+  unfold frameRecur at h
+  have h1 : SK P (P.frame f).framer (fun _ => False) s
+      (runActs sem .recur f (P.frame f).reacts (s.emit (.recur f))) :=
+    SK.trans (b := s.emit (.recur f)) (SK.of_step wf ⟨step_emit P _ _ s, Keep.refl _ _⟩ _)
+      (SK.of_step wf (runActs_step P sem .recur f _ _ (wf.doneRe f) _) _)
+  refine SK.trans h1 ?_
+  refine forEach_rel (R := SK P (P.frame f).framer (fun _ => False)) (SK.refl _ _) (fun _ _ _ => SK.trans) _ _ ?_ _ _ h
+  intro y hy s1 s2 h2
+  exact lo_sub_plain wf hlo.recur hy h2
+
+omit wf hlo in
+/-- a list of frame-level parts, all frames of framer `i` -/
+theorem frames_sk {i : Frid} {X : Frid → Prop} (g : Fid → St W → Except Err (St W))
+    (hg : ∀ f s s', g f s = .ok s' → SK P (P.frame f).framer X s s') (l : List Fid)
+    (hown : ∀ f, f ∈ l → (P.frame f).framer = i) {s s' : St W} (h : forEach g l s = .ok s') : SK P i X s s' := by
+  refine forEach_rel (R := SK P i X) (SK.refl _ _) (fun _ _ _ => SK.trans) _ _ ?_ _ _ h
+  intro f hf s1 s2 h2
+  have := hg f s1 s2 h2
+  rw [hown f hf] at this
+  exact this
+
+omit wf hlo in
+/-- the common shape of the specs of `recur` / `segue`: everything is kept -/
+theorem spec_of_sk {i : Frid} {s s' : St W} (ho : Owned P s) (hsk : SK P i (fun _ => False) s s') :
+    Mod (Reach P i) s s' ∧ Owned P s' ∧ (s'.bad = false → InvR P i s → InvR P i s') := by
+  have r := hsk ho
+  refine ⟨r.1.mod, r.2.2, ?_⟩
+  intro hb hinv
+  rw [invR_iff] at hinv ⊢
+  exact ⟨hinv.1.of_sko r, r.1.below hb hinv.2⟩
+
+theorem recur_sk {i : Frid} {s s' : St W} (ho : Owned P s) (h : recur P sem lo i s = .ok s') :
+    SK P i (fun _ => False) s s' := by
+  unfold recur at h
+  exact frames_sk _ (fun f s s' h => frameRecur_sk wf hlo h) _ (fun f hf => ho.actives i f hf) h
+
+/-! #### segue: transitions and conditional auxiliaries -/
+
+/-- the invariant carried along the preacts of framer `i` -/
+def Live (P : Prog) (i : Frid) (s : St W) : Prop :=
+  FInv P i s ∧ Below P i s ∧ (s.fr i).active ≠ none
+
+/-- a part of `segue` of framer `i` -/
+def PStep (P : Prog) (i : Frid) (s s' : St W) : Prop :=
+  Owned P s → Mod (Reach P i) s s' ∧ Owned P s' ∧ (s'.bad = false → Live P i s → Live P i s')
+
+omit wf hlo in
+theorem PStep.refl (i : Frid) (s : St W) : PStep P i s s := fun ho => ⟨Mod.refl _ _, ho, fun _ h => h⟩
+
+omit wf hlo in
+theorem PStep.trans {i : Frid} {a b c : St W} (h1 : PStep P i a b) (h2 : PStep P i b c) : PStep P i a c := by
+  intro ho
+  have r1 := h1 ho
+  have r2 := h2 r1.2.1
+  exact ⟨r1.1.trans r2.1, r2.2.1, fun hb hl => r2.2.2 hb (r1.2.2 (r2.1.bad_false hb) hl)⟩
+
+omit wf hlo in
+theorem PStep.of_sk {i : Frid} {s s' : St W} (h : SK P i (fun _ => False) s s') : PStep P i s s' := by
+  intro ho
+  have r := h ho
+  refine ⟨r.1.mod, r.2.2, ?_⟩
+  intro hb ⟨h1, h2, h3⟩
+  exact ⟨h1.of_sko r, r.1.below hb h2, by rw [r.2.1.1]; exact h3⟩
+
+omit wf hlo in
+theorem susp_mem {needs : List NeedId} {aux : Frid} {tr : List Act} {l : List Preact}
+    (h : Preact.suspend needs aux tr ∈ l) : aux ∈ suspAuxes l := by
+  induction l with
+  | nil => cases h
+  | cons p ps ih =>
+    rcases List.mem_cons.1 h with e | h'
+    · subst e; simp [suspAuxes]
+    · cases p <;> simp [suspAuxes, ih h']
+
+omit hlo in
+theorem rexit_step {i : Frid} (l : List Fid) (hown : ∀ f, f ∈ l → (P.frame f).framer = i) (s : St W) :
+    Step P i s (rexit P sem l s) ∧ Keep i s (rexit P sem l s) := by
+  unfold rexit
+  have : ∀ (l : List Fid), (∀ f, f ∈ l → (P.frame f).framer = i) → ∀ s : St W,
+      Step P i s (l.foldl (fun s f => runActs sem .rexit f (P.frame f).rexacts (s.emit (.rexit f))) s) ∧
+      Keep i s (l.foldl (fun s f => runActs sem .rexit f (P.frame f).rexacts (s.emit (.rexit f))) s) := by
+    intro l
+    induction l with
+    | nil => intro _ s; exact ⟨Step.refl _ _ _, Keep.refl _ _⟩
+    | cons g gs ih =>
+      intro hown s
+      simp only [List.foldl_cons]
+      have hg := hown g (by simp)
+      have r1 := runActs_step P sem .rexit g i (P.frame g).rexacts (hg ▸ wf.doneRex g) (s.emit (.rexit g))
+      have r2 := ih (fun f hf => hown f (by simp [hf])) (runActs sem .rexit g (P.frame g).rexacts (s.emit (.rexit g)))
+      exact ⟨((step_emit P i _ s).trans r1.1).trans r2.1, (Keep.trans (Keep.refl _ _) r1.2).trans r2.2⟩
+  exact this l.reverse (fun f hf => hown f (List.mem_reverse.1 hf)) s
+
+omit hlo in
+theorem renter_step {i : Frid} (l : List Fid) (hown : ∀ f, f ∈ l → (P.frame f).framer = i) (s : St W) :
+    Step P i s (renter P sem l s) ∧ Keep i s (renter P sem l s) := by
+  unfold renter
+  induction l generalizing s with
+  | nil => exact ⟨Step.refl _ _ _, Keep.refl _ _⟩
+  | cons g gs ih =>
+    simp only [List.foldl_cons]
+    have hg := hown g (by simp)
+    have r1 := runActs_step P sem .renter g i (P.frame g).renacts (hg ▸ wf.doneRen g) (s.emit (.renter g))
+    have r2 := ih (fun f hf => hown f (by simp [hf])) (runActs sem .renter g (P.frame g).renacts (s.emit (.renter g)))
+    exact ⟨((step_emit P i _ s).trans r1.1).trans r2.1, (Keep.trans (Keep.refl _ _) r1.2).trans r2.2⟩
+
+/-- `Transiter.action` in a frame `f` of framer `i` -/
+theorem transit_pstep {i : Frid} {f : Fid} (hf : (P.frame f).framer = i) {needs : List NeedId} {far : Fid}
+    {tracts : List Act} (hp : Preact.transit needs far tracts ∈ (P.frame f).preacts) {s s' : St W} {b : Bool}
+    (h : transit P sem lo i f needs far tracts s = .ok (b, s')) : PStep P i s s' := by
+  intro ho
+  unfold transit at h
+  split at h
+  · simp only [Except.ok.injEq, Prod.mk.injEq] at h; rw [← h.2]; exact PStep.refl _ _ ho
+  · -- the needs hold
+    obtain ⟨nears, hnears⟩ : ∃ x, x = (s.fr i).actives := ⟨_, rfl⟩
+    obtain ⟨r, hr⟩ : ∃ x, x = exEn far nears (P.frame far).outline := ⟨_, rfl⟩
+    rw [← hnears, ← hr] at h
+    simp only [] at h
+    cases hc : checkEnter P sem lo r.2.1 r.1 s with
+    | error e => simp [hc] at h
+    | ok c =>
+      cases c with
+      | false =>
+        simp only [hc, Except.ok.injEq, Prod.mk.injEq] at h; rw [← h.2]; exact PStep.refl _ _ ho
+      | true =>
+        simp only [hc] at h
+        have hfar : (P.frame far).framer = i := by rw [wf.farOwn f needs far tracts hp, hf]
+        have hexits : ∀ g, g ∈ r.1 → (P.frame g).framer = i := by
+          intro g hg; rw [hr] at hg
+          exact ho.actives i g (hnears ▸ Outline.exEn_exits_mem _ _ _ g hg)
+        have hre : ∀ g, g ∈ r.2.2 → (P.frame g).framer = i := by
+          intro g hg; rw [hr] at hg
+          exact ho.actives i g (hnears ▸ Outline.exEn_reexens_mem _ _ _ g hg)
+        have hen : ∀ g, g ∈ r.2.1 → (P.frame g).framer = i := by
+          intro g hg; rw [hr] at hg
+          rw [wf.outlineOwn far g (Outline.exEn_enters_mem _ _ _ g hg), hfar]
+        have hne : r.2.1 ≠ [] := by
+          intro e
+          unfold checkEnter at hc
+          simp [e] at hc
+        obtain ⟨sa, hsa⟩ : ∃ x, x = runActs sem .transit f tracts s := ⟨_, rfl⟩
+        rw [← hsa] at h
+        have tr := wf.donePre f _ hp
+        simp only [PreactDoneOnly, hf] at tr
+        have sta := runActs_step P sem .transit f i tracts tr s
+        rw [← hsa] at sta
+        unfold exit at h
+        cases hx : forEach (frameExit P sem lo) r.1.reverse sa with
+        | error e => simp [hx] at h
+        | ok sb =>
+          simp only [hx] at h
+          have ska := SK.of_step wf sta (fun _ => False) ho
+          have dx := exit_sk wf hlo r.1.reverse (fun g hg => hexits g (List.mem_reverse.1 hg)) sa sb ska.2.2 hx
+          obtain ⟨sd, hsd⟩ : ∃ x, x = renter P sem r.2.2 (rexit P sem r.2.2 sb) := ⟨_, rfl⟩
+          rw [← hsd] at h
+          have stc := rexit_step wf (sem := sem) r.2.2 hre sb
+          have std := renter_step wf (sem := sem) r.2.2 hre (rexit P sem r.2.2 sb)
+          have stbd : Step P i sb sd ∧ Keep i sb sd := by
+            rw [hsd]; exact ⟨stc.1.trans std.1, stc.2.trans std.2⟩
+          have skd := SK.of_step wf stbd (fun _ => False) dx.1.2.2
+          cases he : enter P sem lo i r.2.1 sd with
+          | error e => simp [he] at h
+          | ok se =>
+            simp only [he, Except.ok.injEq, Prod.mk.injEq] at h
+            have ske := enter_sk wf hlo hen he skd.2.2
+            have hs' : s' = activate P i far se := h.2.symm
+            have stf : Step P i se s' := by
+              rw [hs']; unfold activate
+              exact (step_modFr P i _ se).trans (step_emit P i _ _)
+            -- the whole transition as one `Sub`
+            let X : Frid → Prop := fun x => ∃ g, g ∈ r.1.reverse ∧ IsSusp P g x
+            have sub1 : Sub P i X s sb := (ska.1.mono (fun _ hh => hh.elim)).trans dx.1.1
+            have sub2 : Sub P i (fun _ => False) sb s' := (skd.1.trans ske.1).trans (stf.sub wf _)
+            have sub : Sub P i X s s' := sub1.trans (sub2.mono (fun _ hh => hh.elim))
+            have hact : (s'.fr i).active = some far ∧ (s'.fr i).actives = (P.frame far).outline := by
+              rw [hs']; simp [activate]
+            have hown' : Owned P s' := by
+              rw [hs']
+              exact owned_activate ske.2.2 (fun g hg => by rw [wf.outlineOwn far g hg, hfar]) hfar
+            refine ⟨sub.mod, hown', ?_⟩
+            intro hb ⟨hinv, hbel, _⟩
+            refine ⟨?_, sub.below hb hbel, by rw [hact.1]; simp⟩
+            have hnr : ∀ m x, (P.frame m).framer = i → ¬ Running P s' m x := by
+              intro m x hm ⟨hx', hd⟩
+              have hck : CondKid P i x := ⟨m, hm, hx'⟩
+              rw [sub2.kids x hck (fun hh => hh)] at hd
+              have hrun : Running P s m x := by
+                refine ⟨hx', ?_⟩
+                cases hds : (s.fr x).done with
+                | false => rfl
+                | true =>
+                  have h1 : (sa.fr x).done = true := by rw [ska.1.kids x hck (fun hh => hh)]; exact hds
+                  rw [dx.2.2 x hck h1] at hd; cases hd
+              have hcut := hinv.cut m x hm hrun
+              have hlast : nears.getLast? = some m := by rw [hnears, hcut]; exact wf.headLast m
+              have hmem : m ∈ r.1 := by
+                rw [hr]; exact Outline.exEn_last_exited far nears _ m (hr ▸ hne) hlast
+              rw [dx.2.1 m x (List.mem_reverse.2 hmem) hx'] at hd
+              cases hd
+            constructor
+            · intro hn; rw [hact.1] at hn; cases hn
+            · intro a hs; rw [hact.1] at hs; cases hs; exact hfar
+            · intro a hs _; rw [hact.1] at hs; cases hs; exact hact.2
+            · intro m x hm hr'; exact absurd hr' (hnr m x hm)
+            · intro m x m' x' hm _ hr' _; exact absurd hr' (hnr m x hm)
+
+omit hlo in
+/-- `otherRunning = false`: every other conditional auxiliary of framer `i` is done -/
+theorem otherRunning_false {i : Frid} {aux : Frid} {s : St W} (h : otherRunning P i aux s = false)
+    {z : Frid} (hz : CondKid P i z) (hne : z ≠ aux) : (s.fr z).done = true := by
+  obtain ⟨m, hm, hx⟩ := hz
+  unfold otherRunning at h
+  rw [List.any_eq_false] at h
+  have hmem : (m, z) ∈ condAuxesOf P i := by
+    unfold condAuxesOf
+    rw [List.mem_flatMap]
+    exact ⟨m, hm ▸ wf.framesComplete m, List.mem_map.2 ⟨z, hx, rfl⟩⟩
+  have := h (m, z) hmem
+  simp only [Bool.and_eq_true, bne_iff_ne, ne_eq, Bool.not_eq_true', not_and, Bool.not_eq_false] at this
+  exact this hne
+
+omit wf hlo in
+theorem owned_truncate {i : Frid} {m : Fid} {s : St W} (ho : Owned P s)
+    (hm : ∀ f, f ∈ (P.frame m).head → (P.frame f).framer = i) : Owned P (truncate P i m s) := by
+  constructor
+  · intro j f hf
+    by_cases e : j = i
+    · subst e
+      simp only [truncate, fr_emit, fr_modFr, if_true] at hf
+      exact hm f hf
+    · simp only [truncate, fr_emit, fr_modFr, e, if_false] at hf
+      exact ho.actives j f hf
+  · intro j a ha
+    by_cases e : j = i
+    · subst e
+      simp only [truncate, fr_emit, fr_modFr, if_true] at ha
+      exact ho.active j a ha
+    · simp only [truncate, fr_emit, fr_modFr, e, if_false] at ha
+      exact ho.active j a ha
+
+
+/-- facts about a conditional auxiliary clause `aux … if …` in frame `f` of framer `i` -/
+structure Clause (P : Prog) (i : Frid) (f : Fid) (aux : Frid) : Prop where
+  hf : (P.frame f).framer = i
+  susp : IsSusp P f aux
+
+omit wf hlo in
+theorem Clause.kid {i : Frid} {f : Fid} {aux : Frid} (c : Clause P i f aux) : CondKid P i aux := ⟨f, c.hf, c.susp⟩
+
+omit hlo in
+theorem Clause.uniq {i : Frid} {f : Fid} {aux : Frid} (c : Clause P i f aux) {m : Fid} (hz : IsSusp P m aux) : m = f :=
+  wf.unique m f aux (List.mem_append_right _ hz) (List.mem_append_right _ c.susp)
+
+/-- the first run of a conditional auxiliary -/
+theorem suspendEnter_pstep {i : Frid} {f : Fid} {aux : Frid} (c : Clause P i f aux) {tracts : List Act}
+    (tr : ∀ a, a ∈ tracts → DoneOnly i a) {s s' : St W} {b : Bool} (hdone : (s.fr aux).done = true)
+    (h : suspendEnter P sem lo i f aux tracts s = .ok (b, s')) : PStep P i s s' := by
+  intro ho
+  have hck := c.kid
+  have hch := hck.child
+  unfold suspendEnter at h
+  obtain ⟨sb, hsb⟩ : ∃ x, x = claim P aux f (runActs sem .transit f tracts s) := ⟨_, rfl⟩
+  rw [← hsb] at h
+  simp only [] at h
+  have stb : Step P i s sb ∧ Keep i s sb := by
+    rw [hsb]
+    have r1 := runActs_step P sem .transit f i tracts tr s
+    have r2 := claim_step wf hch f (runActs sem .transit f tracts s)
+    exact ⟨r1.1.trans r2.1, r1.2.trans r2.2⟩
+  have skb := SK.of_step wf stb (fun z => z = aux) ho
+  cases h1 : lo.enterAll aux sb with
+  | error e => simp [h1] at h
+  | ok sc =>
+    simp only [h1] at h
+    have skc := lo_sub wf hlo.enterAll hch h1 skb.2.2
+    cases h2 : lo.recur aux sc with
+    | error e => simp [h2] at h
+    | ok sd =>
+      simp only [h2] at h
+      have skd := lo_sub wf hlo.recur hch h2 skc.2.2
+      have subd : Sub P i (fun z => z = aux) s sd := (skb.1.trans skc.1).trans skd.1
+      have keepd : Keep i s sd := (skb.2.1.trans skc.2.1).trans skd.2.1
+      by_cases hd : (sd.fr aux).done = true
+      · -- done after the first run: clean up, no truncation
+        simp only [hd, if_true] at h
+        cases h3 : deactivateAux P lo aux sd with
+        | error e => simp [h3] at h
+        | ok se =>
+          simp only [h3, Except.ok.injEq, Prod.mk.injEq] at h
+          have ske := deactivateAux_sk wf hlo hck skd.2.2 h3
+          rw [← h.2]
+          have sube : Sub P i (fun z => z = aux) s se := subd.trans ske.1.1
+          have keepe : Keep i s se := keepd.trans ske.1.2.1
+          refine ⟨sube.mod, ske.1.2.2, ?_⟩
+          intro hb ⟨hinv, hbel, hact⟩
+          refine ⟨?_, sube.below hb hbel, by rw [keepe.1]; exact hact⟩
+          apply hinv.congr keepe.1 keepe.2
+          intro m z hm hz
+          by_cases e : z = aux
+          · subst e; rw [ske.2, hdone]
+          · exact sube.kids z ⟨m, hm, hz⟩ e
+      · -- still running: truncate the outline at the main frame
+        simp only [hd, if_false, Except.ok.injEq, Prod.mk.injEq, Bool.false_eq_true] at h
+        obtain ⟨sm, hsm⟩ : ∃ x, x = markOverlap (otherRunning P i aux sd) sd := ⟨_, rfl⟩
+        rw [← hsm] at h
+        have stm : Step P i sd sm := hsm ▸ step_markOverlap P i _ sd
+        have stt : Step P i sm s' := by
+          rw [← h.2]; unfold truncate
+          exact (step_modFr P i _ sm).trans (step_emit P i _ _)
+        have subs : Sub P i (fun z => z = aux) s s' := subd.trans ((stm.trans stt).sub wf _)
+        have hact' : (s'.fr i).active = (s.fr i).active ∧ (s'.fr i).actives = (P.frame f).head := by
+          rw [← h.2, hsm]
+          refine ⟨?_, by simp [truncate]⟩
+          simp only [truncate, fr_emit, fr_modFr, if_true, fr_markOverlap]
+          exact keepd.1
+        have hown' : Owned P s' := by
+          rw [← h.2]
+          apply owned_truncate
+          · rw [hsm]; exact ⟨fun j g hg => skd.2.2.actives j g hg, fun j a ha => skd.2.2.active j a ha⟩
+          · intro g hg; rw [wf.headOwn f g hg, c.hf]
+        refine ⟨subs.mod, hown', ?_⟩
+        intro hb ⟨hinv, hbel, hact⟩
+        refine ⟨?_, subs.below hb hbel, by rw [hact'.1]; exact hact⟩
+        -- no other conditional kid is running, otherwise the overlap flag is up
+        have hother : otherRunning P i aux sd = false := by
+          cases ho' : otherRunning P i aux sd with
+          | false => rfl
+          | true =>
+            exfalso
+            have : sm.bad = true := by rw [hsm, bad_markOverlap, ho']; simp
+            rw [stt.flags this] at hb; cases hb
+        have hdz : ∀ z, CondKid P i z → z ≠ aux → (s'.fr z).done = true := by
+          intro z hz hne
+          rw [(stm.trans stt).done z (child_ne wf hz.child)]
+          exact otherRunning_false wf hother hz hne
+        have hrun : ∀ m z, (P.frame m).framer = i → Running P s' m z → z = aux ∧ m = f := by
+          intro m z hm ⟨hz, hd'⟩
+          have hze : z = aux := by
+            apply Classical.byContradiction
+            intro hne
+            rw [hdz z ⟨m, hm, hz⟩ hne] at hd'; cases hd'
+          subst hze
+          exact ⟨rfl, c.uniq wf hz⟩
+        have hrunaux : Running P s' f aux := by
+          refine ⟨c.susp, ?_⟩
+          rw [(stm.trans stt).done aux (child_ne wf hch)]
+          cases hq : (sd.fr aux).done with
+          | false => rfl
+          | true => exact absurd hq hd
+        constructor
+        · intro hn; rw [hact'.1] at hn; exact absurd hn hact
+        · intro a hs; rw [hact'.1] at hs; exact hinv.own a hs
+        · intro a _ hno; exact absurd hrunaux (hno f aux c.hf)
+        · intro m z hm hr'
+          obtain ⟨_, hmf⟩ := hrun m z hm hr'
+          rw [hmf]; exact hact'.2
+        · intro m z m' z' hm hm' hr1 hr2
+          rw [(hrun m z hm hr1).1, (hrun m' z' hm' hr2).1]
+
+theorem suspendStart_pstep {i : Frid} {f : Fid} {aux : Frid} (c : Clause P i f aux) {needs : List NeedId}
+    {tracts : List Act} (tr : ∀ a, a ∈ tracts → DoneOnly i a) {s s' : St W} {b : Bool}
+    (hdone : (s.fr aux).done = true)
+    (h : suspendStart P sem lo i f needs aux tracts s = .ok (b, s')) : PStep P i s s' := by
+  unfold suspendStart at h
+  by_cases hn : needsHold sem needs s = true
+  · simp only [hn, if_true] at h
+    by_cases ho' : ownedElsewhere aux f s = true
+    · simp only [ho', if_true, Except.ok.injEq, Prod.mk.injEq] at h; rw [← h.2]; exact PStep.refl _ _
+    · simp only [ho', if_false, Bool.false_eq_true] at h
+      cases hcs : lo.checkStart aux s with
+      | error e => simp [hcs] at h
+      | ok cs =>
+        cases cs with
+        | false => simp only [hcs, Except.ok.injEq, Prod.mk.injEq] at h; rw [← h.2]; exact PStep.refl _ _
+        | true =>
+          simp only [hcs] at h
+          exact suspendEnter_pstep wf hlo c tr hdone h
+  · simp only [hn, if_false, Except.ok.injEq, Prod.mk.injEq, Bool.false_eq_true] at h
+    rw [← h.2]; exact PStep.refl _ _
+
+/-- a further run of a running conditional auxiliary -/
+theorem suspendRun_pstep {i : Frid} {f : Fid} {aux : Frid} (c : Clause P i f aux) {s s' : St W} {b : Bool}
+    (hnd : (s.fr aux).done = false) (h : suspendRun P lo i aux s = .ok (b, s')) : PStep P i s s' := by
+  intro ho
+  have hck := c.kid
+  have hch := hck.child
+  unfold suspendRun at h
+  cases h1 : lo.segue aux s with
+  | error e => simp [h1] at h
+  | ok sa =>
+    simp only [h1] at h
+    have ska := lo_sub wf hlo.segue hch h1 ho
+    cases h2 : lo.recur aux sa with
+    | error e => simp [h2] at h
+    | ok sb =>
+      simp only [h2] at h
+      have skb := lo_sub wf hlo.recur hch h2 ska.2.2
+      have subb : Sub P i (fun z => z = aux) s sb := ska.1.trans skb.1
+      have keepb : Keep i s sb := ska.2.1.trans skb.2.1
+      have hrun0 : Running P s f aux := ⟨c.susp, hnd⟩
+      by_cases hd : (sb.fr aux).done = true
+      · -- completed: exit it and restore the outline
+        simp only [hd, if_true] at h
+        cases h3 : deactivateAux P lo aux sb with
+        | error e => simp [h3] at h
+        | ok sc =>
+          simp only [h3] at h
+          have skc := deactivateAux_sk wf hlo hck skb.2.2 h3
+          have subc : Sub P i (fun z => z = aux) s sc := subb.trans skc.1.1
+          have keepc : Keep i s sc := keepb.trans skc.1.2.1
+          unfold reactivate at h
+          cases ha : (sc.fr i).active with
+          | none => simp [ha] at h
+          | some a =>
+            simp only [ha, Except.ok.injEq, Prod.mk.injEq] at h
+            have stf : Step P i sc s' := by
+              rw [← h.2]
+              exact (step_modFr P i _ sc).trans (step_emit P i _ _)
+            have subs : Sub P i (fun z => z = aux) s s' := subc.trans (stf.sub wf _)
+            have hact' : (s'.fr i).active = some a ∧ (s'.fr i).actives = (P.frame a).outline := by
+              rw [← h.2]; simp [ha]
+            have hai : (P.frame a).framer = i := skc.1.2.2.active i a ha
+            have hown' : Owned P s' := by
+              constructor
+              · intro j g hg
+                by_cases e : j = i
+                · subst e
+                  rw [hact'.2] at hg
+                  rw [wf.outlineOwn a g hg, hai]
+                · rw [stf.actives j e] at hg; exact skc.1.2.2.actives j g hg
+              · intro j a' ha'
+                by_cases e : j = i
+                · subst e; rw [hact'.1] at ha'; cases ha'; exact hai
+                · rw [stf.active j e] at ha'; exact skc.1.2.2.active j a' ha'
+            refine ⟨subs.mod, hown', ?_⟩
+            intro hb ⟨hinv, hbel, _⟩
+            refine ⟨?_, subs.below hb hbel, by rw [hact'.1]; simp⟩
+            have hdone' : ∀ z, CondKid P i z → (s'.fr z).done = true := by
+              intro z hz
+              rw [stf.done z (child_ne wf hz.child)]
+              by_cases e : z = aux
+              · subst e; exact skc.2
+              · rw [subc.kids z hz e]
+                obtain ⟨m, hm, hzz⟩ := hz
+                cases hq : (s.fr z).done with
+                | true => rfl
+                | false => exact absurd (hinv.single m z f aux hm c.hf ⟨hzz, hq⟩ hrun0) e
+            have hnr : ∀ m z, (P.frame m).framer = i → ¬ Running P s' m z := by
+              intro m z hm ⟨hz, hd'⟩
+              rw [hdone' z ⟨m, hm, hz⟩] at hd'; cases hd'
+            constructor
+            · intro hn; rw [hact'.1] at hn; cases hn
+            · intro a' hs; rw [hact'.1] at hs; cases hs; exact hai
+            · intro a' hs _; rw [hact'.1] at hs; cases hs; exact hact'.2
+            · intro m z hm hr'; exact absurd hr' (hnr m z hm)
+            · intro m z m' z' hm _ hr' _; exact absurd hr' (hnr m z hm)
+      · -- still running
+        simp only [hd, if_false, Except.ok.injEq, Prod.mk.injEq, Bool.false_eq_true] at h
+        rw [← h.2]
+        refine ⟨subb.mod, skb.2.2, ?_⟩
+        intro hb ⟨hinv, hbel, hact⟩
+        refine ⟨?_, subb.below hb hbel, by rw [keepb.1]; exact hact⟩
+        apply hinv.congr keepb.1 keepb.2
+        intro m z hm hz
+        by_cases e : z = aux
+        · subst e
+          cases hq : (sb.fr z).done with
+          | true => exact absurd hq hd
+          | false => rw [hnd]
+        · exact subb.kids z ⟨m, hm, hz⟩ e
+
+/-- `Suspender.action` in a frame `f` of framer `i` -/
+theorem suspend_pstep {i : Frid} {f : Fid} (hf : (P.frame f).framer = i) {needs : List NeedId} {aux : Frid}
+    {tracts : List Act} (hp : Preact.suspend needs aux tracts ∈ (P.frame f).preacts) {s s' : St W} {b : Bool}
+    (h : suspend P sem lo i f needs aux tracts s = .ok (b, s')) : PStep P i s s' := by
+  have c : Clause P i f aux := ⟨hf, susp_mem hp⟩
+  have tr := wf.donePre f _ hp
+  simp only [PreactDoneOnly, hf] at tr
+  unfold suspend at h
+  by_cases hd : (s.fr aux).done = true
+  · simp only [hd, if_true] at h
+    exact suspendStart_pstep wf hlo c tr hd h
+  · simp only [hd, if_false, Bool.false_eq_true] at h
+    have : (s.fr aux).done = false := by
+      cases hq : (s.fr aux).done with
+      | true => exact absurd hq hd
+      | false => rfl
+    exact suspendRun_pstep wf hlo c this h
+
+theorem runPreact_pstep {i : Frid} {f : Fid} (hf : (P.frame f).framer = i) {p : Preact}
+    (hp : p ∈ (P.frame f).preacts) {s s' : St W} {b : Bool}
+    (h : runPreact P sem lo i f p s = .ok (b, s')) : PStep P i s s' := by
+  cases p with
+  | act a =>
+    simp only [runPreact, Except.ok.injEq, Prod.mk.injEq] at h
+    rw [← h.2]
+    have da := wf.donePre f _ hp
+    simp only [PreactDoneOnly, hf] at da
+    exact PStep.of_sk (SK.of_step wf (runAct_step P sem .precur f i a da s) _)
+  | transit needs far tracts => exact transit_pstep wf hlo hf hp h
+  | suspend needs aux tracts => exact suspend_pstep wf hlo hf hp h
+
+theorem precurLoop_pstep {i : Frid} {f : Fid} (hf : (P.frame f).framer = i) (ps : List Preact)
+    (hps : ∀ p, p ∈ ps → p ∈ (P.frame f).preacts) :
+    ∀ (s s' : St W) (b : Bool), precurLoop P sem lo i f ps s = .ok (b, s') → PStep P i s s' := by
+  induction ps with
+  | nil =>
+    intro s s' b h
+    simp only [precurLoop, Except.ok.injEq, Prod.mk.injEq] at h
+    rw [← h.2]; exact PStep.refl _ _
+  | cons p ps ih =>
+    intro s s' b h
+    simp only [precurLoop] at h
+    cases h1 : runPreact P sem lo i f p s with
+    | error e => simp [h1] at h
+    | ok r =>
+      obtain ⟨b1, s1⟩ := r
+      have p1 := runPreact_pstep wf hlo hf (hps p (by simp)) h1
+      cases b1 with
+      | true =>
+        simp only [h1, Except.ok.injEq, Prod.mk.injEq] at h
+        rw [← h.2]; exact p1
+      | false =>
+        simp only [h1] at h
+        exact PStep.trans p1 (ih (fun q hq => hps q (by simp [hq])) s1 s' b h)
+
+theorem segueLoop_pstep {i : Frid} (fs : List Fid) (hfs : ∀ f, f ∈ fs → (P.frame f).framer = i) :
+    ∀ (s s' : St W), segueLoop P sem lo i fs s = .ok s' → PStep P i s s' := by
+  induction fs with
+  | nil =>
+    intro s s' h
+    simp only [segueLoop, Except.ok.injEq] at h
+    rw [← h]; exact PStep.refl _ _
+  | cons f fs ih =>
+    intro s s' h
+    simp only [segueLoop, framePrecur] at h
+    cases h1 : precurLoop P sem lo i f (P.frame f).preacts s with
+    | error e => simp [h1] at h
+    | ok r =>
+      obtain ⟨b1, s1⟩ := r
+      have p1 := precurLoop_pstep wf hlo (hfs f (by simp)) _ (fun _ hp => hp) s s1 b1 h1
+      cases b1 with
+      | true =>
+        simp only [h1, Except.ok.injEq] at h
+        rw [← h]; exact p1
+      | false =>
+        simp only [h1] at h
+        exact PStep.trans p1 (ih (fun g hg => hfs g (by simp [hg])) s1 s' h)
+
+omit wf hlo in
+theorem updateClocks_step (i : Frid) (s : St W) :
+    Step P i s (updateClocks i s) ∧ Keep i s (updateClocks i s) :=
+  ⟨step_modFr P i _ s, by simp [Keep, updateClocks]⟩
+
+/-- `Framer.segue` -/
+theorem segue_spec {i : Frid} {s s' : St W} (ho : Owned P s) (h : segue P sem lo i s = .ok s') :
+    Mod (Reach P i) s s' ∧ Owned P s' ∧ (s'.bad = false → InvR P i s → InvR P i s') ∧
+    (s'.bad = false → InvR P i s → (s.fr i).active ≠ none → (s'.fr i).active ≠ none) := by
+  unfold segue at h
+  obtain ⟨s0, hs0⟩ : ∃ x, x = updateClocks i s := ⟨_, rfl⟩
+  rw [← hs0] at h
+  simp only [] at h
+  have sk0 : SK P i (fun _ => False) s s0 := hs0 ▸ SK.of_step wf (updateClocks_step i s) _
+  cases h1 : forEach (fun f s => forEach lo.segue (P.frame f).auxes s) (s0.fr i).actives s0 with
+  | error e => simp [h1] at h
+  | ok s1 =>
+    simp only [h1] at h
+    have r0 := sk0 ho
+    have sk1 : SK P i (fun _ => False) s0 s1 := by
+      refine frames_sk _ ?_ _ (fun f hf => r0.2.2.actives i f hf) h1
+      intro f t t' ht
+      refine forEach_rel (R := SK P (P.frame f).framer (fun _ => False)) (SK.refl _ _)
+        (fun _ _ _ => SK.trans) _ _ ?_ _ _ ht
+      intro y hy u u' hu
+      exact lo_sub_plain wf hlo.segue hy hu
+    have sk01 := SK.trans sk0 sk1
+    have r1 := sk01 ho
+    have p2 := segueLoop_pstep wf hlo (s1.fr i).actives (fun f hf => r1.2.2.actives i f hf) s1 s' h
+    have p := PStep.trans (PStep.of_sk sk01) p2 ho
+    refine ⟨p.1, p.2.1, ?_, ?_⟩
+    · intro hb hinv
+      rw [invR_iff] at hinv ⊢
+      cases ha : (s.fr i).active with
+      | some a =>
+        have := p.2.2 hb ⟨hinv.1, hinv.2, by rw [ha]; simp⟩
+        exact ⟨this.1, this.2.1⟩
+      | none =>
+        -- an inactive framer has no active frames: the transition loop does nothing
+        have hnil : (s1.fr i).actives = [] := by rw [r1.2.1.2]; exact hinv.1.none_nil ha
+        rw [hnil] at h
+        simp only [segueLoop, Except.ok.injEq] at h
+        rw [← h]
+        have hb1 : s1.bad = false := by rw [h]; exact hb
+        exact ⟨hinv.1.of_sko r1, r1.1.below hb1 hinv.2⟩
+    · intro hb hinv hact
+      rw [invR_iff] at hinv
+      exact (p.2.2 hb ⟨hinv.1, hinv.2, hact⟩).2.2
+
+/-- `Framer.recur` -/
+theorem recur_spec {i : Frid} {s s' : St W} (ho : Owned P s) (h : recur P sem lo i s = .ok s') :
+    Mod (Reach P i) s s' ∧ Owned P s' ∧ (s'.bad = false → InvR P i s → InvR P i s') ∧
+    (s'.fr i).active = (s.fr i).active :=
+  have sk := recur_sk wf hlo ho h
+  have r := spec_of_sk ho sk
+  ⟨r.1, r.2.1, r.2.2, (sk ho).2.1.1⟩
+
+/-- the entry points of the next level satisfy the same specification -/
+theorem nextOps_spec : LoSpec P (nextOps P sem lo) := by
+  refine ⟨⟨?_, ?_, ?_⟩, ⟨?_, ?_, ?_⟩, ⟨?_, ?_, ?_⟩, ⟨?_, ?_, ?_⟩, ?_⟩
+  · intro y s s' ho h; exact (enterAll_spec wf hlo ho h).1
+  · intro y s s' ho h; exact (enterAll_spec wf hlo ho h).2.1
+  · intro y s s' ho h; exact (enterAll_spec wf hlo ho h).2.2.1
+  · intro y s s' ho h; exact (exitAll_spec wf hlo ho h).1
+  · intro y s s' ho h; exact (exitAll_spec wf hlo ho h).2.1
+  · intro y s s' ho h; exact (exitAll_spec wf hlo ho h).2.2.1
+  · intro y s s' ho h; exact (recur_spec wf hlo ho h).1
+  · intro y s s' ho h; exact (recur_spec wf hlo ho h).2.1
+  · intro y s s' ho h; exact (recur_spec wf hlo ho h).2.2.1
+  · intro y s s' ho h; exact (segue_spec wf hlo ho h).1
+  · intro y s s' ho h; exact (segue_spec wf hlo ho h).2.1
+  · intro y s s' ho h; exact (segue_spec wf hlo ho h).2.2.1
+  · intro y s s' h
+    -- `exitAll(abort = False)` sets `.done`
+    simp only [nextOps, exitAll] at h
+    cases h1 : exit P sem lo (s.fr y).actives s with
+    | error e => simp [h1] at h
+    | ok s1 =>
+      simp only [h1, Except.ok.injEq, Bool.false_eq_true, if_false] at h
+      rw [← h]; simp
 
 end level
+
+/-- the entry points at every depth satisfy the specification -/
+theorem opsAt_spec {P : Prog} {rank : Frid → Nat} (wf : WF P rank) (sem : Sem W) :
+    ∀ n, LoSpec P (opsAt P sem n)
+  | 0 => by
+    refine ⟨⟨?_, ?_, ?_⟩, ⟨?_, ?_, ?_⟩, ⟨?_, ?_, ?_⟩, ⟨?_, ?_, ?_⟩, ?_⟩ <;>
+      intros <;> simp [opsAt, Ops.bottom] at *
+  | n + 1 => nextOps_spec wf (opsAt_spec wf sem n)
 
 end Ioflo.Flo
